@@ -181,6 +181,36 @@ def case_record(c):
                         V('user_card_changed', 'user card %s=%r expected %r' % (k, h[k], val))
                 elif h[k] != val:
                     V('user_card_changed', 'user card %s=%r expected %r' % (k, h[k], val))
+        # ---------------- third opinion: blimpy's GuppiRaw walks the same headers (never the sole oracle; it may
+        # sys.exit on a card it cannot split, which is caught and counted)
+        blimpy_ok = blimpy_declined = 0
+        try:
+            import io, contextlib
+            from blimpy.guppi import GuppiRaw
+            for fi, fn in enumerate(files):
+                with contextlib.redirect_stdout(io.StringIO()):
+                    try:
+                        g = GuppiRaw(fn)
+                        for b in parsed[fi]:
+                            if b['hdr_off'] % 512:
+                                # blimpy aligns the payload to an ABSOLUTE multiple of 512, which coincides with padding the
+                                # header only when the header starts on a 512 boundary (always true for real DIRECTIO files)
+                                continue
+                            g.file_obj.seek(b['hdr_off'])
+                            hdr, data_idx = g.read_header()
+                            if data_idx != b['payload_off'] or int(hdr['BLOCSIZE']) != b['blocsize']:
+                                V('blimpy_disagrees', '%s: blimpy places the payload of the block at byte %d at %d (BLOCSIZE %s); '
+                                  'independent parser: %d (%d)' % (os.path.basename(fn), b['hdr_off'], data_idx, hdr.get('BLOCSIZE'),
+                                                                   b['payload_off'], b['blocsize']))
+                                break
+                            blimpy_ok += 1
+                        g.file_obj.close()
+                    except SystemExit:
+                        blimpy_declined += 1
+                    except (ValueError, KeyError):
+                        blimpy_declined += 1
+        except ImportError:
+            pass
         # ---------------- the library's own readers against the independent parser
         for fi, fn in enumerate(files):
             try:
@@ -278,7 +308,8 @@ def case_record(c):
             except Exception as e:
                 V('raised', '%s: %s' % (type(e).__name__, e), site='waterfall.get_waterfall_from_raw')
         res['n'] = 1 + nperm
-        res['extra'] = {'listing_permutations': nperm, 'files_parsed': len(files), 'blocks_parsed': len(allb)}
+        res['extra'] = {'listing_permutations': nperm, 'files_parsed': len(files), 'blocks_parsed': len(allb),
+                        'blimpy_blocks_agreeing': blimpy_ok, 'blimpy_declined_files': blimpy_declined}
         res['nontrivial'] = [engine.sha(c)]
         res['outcomes'] = ['cards%%32=%d/pad=%d/files=%d' % (ncards0 % 32, allb[0]['pad'], len(files))]
         return res
